@@ -378,3 +378,137 @@ package kcache
   loop 1 inv [I6-pending-implies-filter-supplied] (=> {pending} filterSupplied)
   loop 1 inv [I7-lifecycle-running] (and (= lc 0) (not {closed(s.outch)}))
 @*/
+
+/*@ nonnil-global kcache.errInvalidType kcache.ErrNotRunning
+@*/
+
+/*@ func kcache.listResourceVersion
+  props C03 C14
+  theory lists
+  ensures [error-iff-no-accessor] (= (= result1 vnil) (has-list-accessor {obj}))
+  ensures [version-of-the-list] (=> (has-list-accessor {obj}) (= result0 (list-rv (list-accessor {obj}))))
+@*/
+
+/*@ func kcache.extractList
+  props C03 C14
+  theory lists
+  loop 1 inv [range] (and (<= 0 (+ {rangeindex} 1)) (<= (+ {rangeindex} 1) (slen {olist})))
+  loop 1 inv [prefix-copied] (and (= (slen {mlist}) (+ {rangeindex} 1))
+        (forall ((j Int)) (=> (and (<= 0 j) (< j (slen {mlist})))
+            (and (= (select (sarr {mlist}) j) (select (sarr {olist}) j)) (is-metaobj (select (sarr {olist}) j))))))
+  ensures [non-list-is-an-error] (=> (not (extractable {obj})) (not (= result1 vnil)))
+  ensures [non-object-item-is-an-error] (=> (and (extractable {obj})
+        (exists ((j Int)) (and (<= 0 j) (< j (slen (list-items {obj}))) (not (is-metaobj (select (sarr (list-items {obj})) j))))))
+        (not (= result1 vnil)))
+  ensures [all-objects-succeeds] (=> (and (extractable {obj})
+        (forall ((j Int)) (=> (and (<= 0 j) (< j (slen (list-items {obj})))) (is-metaobj (select (sarr (list-items {obj})) j)))))
+        (= result1 vnil))
+  ensures [items-in-order] (=> (= result1 vnil) (and (= (slen result0) (slen (list-items {obj})))
+        (forall ((j Int)) (=> (and (<= 0 j) (< j (slen result0)))
+            (and (= (select (sarr result0) j) (select (sarr (list-items {obj})) j)) (not (= (select (sarr result0) j) vnil)))))))
+@*/
+
+/*@ iface kcache.lister.Result
+  theory actors
+  ensures (not (= result vnil))
+@*/
+/*@ iface kcache.lister.Done
+  ensures (not (= result vnil))
+@*/
+/*@ iface kcache.lister.Error
+@*/
+/*@ iface kcache.watcher.Done
+  ensures (not (= result vnil))
+@*/
+/*@ iface kcache.watcher.Error
+@*/
+/*@ iface kcache.watcher.reset
+@*/
+/*@ iface kcache.watcher.events
+@*/
+/*@ iface kcache.cache.Done
+  ensures (not (= result vnil))
+@*/
+/*@ iface kcache.cache.Error
+@*/
+/*@ iface kcache.subscription.send
+@*/
+
+/*@ func (*kcache.controller).distributeEvents
+  props C02 C05 C10
+  theory lists
+  requires (and (not (= {c} vnil)) (not (= {c.subscription} vnil)) (not (= {c.log} vnil)))
+  ghost handed : (Slice V) := seq-empty
+  at call(send) set handed := (seq-append handed $0)
+  loop 1 inv [range] (and (<= 0 (+ {rangeindex} 1)) (<= (+ {rangeindex} 1) (slen {events})))
+  loop 1 inv [handed-is-prefix-in-order] (and (= (slen handed) (+ {rangeindex} 1))
+        (forall ((j Int)) (=> (and (<= 0 j) (< j (slen handed))) (= (select (sarr handed) j) (select (sarr {events}) j)))))
+  exit [every-event-handed-over-exactly-once-in-order] (and (= (slen handed) (slen {events}))
+        (forall ((j Int)) (=> (and (<= 0 j) (< j (slen handed))) (= (select (sarr handed) j) (select (sarr {events}) j)))))
+@*/
+
+/*@ func (*kcache.controller).run
+  props C03 C08 C14 C02 C05 C12
+  theory lists
+  requires [valid-c] (and (not (= {c} vnil)) (not (= {c.readych} vnil)) (not (= {c.watcher} vnil)) (not (= {c.lister} vnil))
+        (not (= {c.cache} vnil)) (not (= {c.subscription} vnil)) (not (= {c.log} vnil)) (not (= {c.lc} vnil)))
+  requires [ready-open] (not {closed(c.readych)})
+  ghost lc : Int := 0
+  ghost ndist : Int := 0
+  ghost resetCalled : Bool := false
+  ghost failure : Bool := false
+  ghost lastResult : V := vnil
+  ghost lastVersion : Str := |str!|
+  ghost versionOK : Bool := false
+  ghost lastList : (Slice V) := seq-empty
+  ghost listOK : Bool := false
+  ghost syncOK : Bool := false
+  ghost lastEvt : V := vnil
+  ghost lastEvents : (Slice V) := seq-empty
+  ghost eventsFresh : Bool := false
+  ghost njoin : Int := 0
+
+  at recv() set versionOK := false
+  at recv() set listOK := false
+  at recv() set syncOK := false
+  at recv() set eventsFresh := false
+  at recv(Result) set lastResult := (|kcache.listResult.list| $val)
+  at recv(Result) set failure := (or failure (not (= (|kcache.listResult.err| $val) vnil)))
+  at recv(events) set lastEvt := $val
+  at call(events).after assume [watcher-has-no-output-channel-before-its-first-reset] (=> (not resetCalled) (= $result vnil))
+  at call(listResourceVersion) assert [version-of-this-list] (= $0 lastResult)
+  at call(listResourceVersion).after set lastVersion := $result0
+  at call(listResourceVersion).after set versionOK := (= $result1 vnil)
+  at call(listResourceVersion).after set failure := (or failure (not (= $result1 vnil)))
+  at call(extractList) assert [items-of-this-list] (= $0 lastResult)
+  at call(extractList).after set lastList := $result0
+  at call(extractList).after set listOK := (= $result1 vnil)
+  at call(extractList).after set failure := (or failure (not (= $result1 vnil)))
+  at call(sync) assert [fail-stop] (and (= lc 0) (not failure))
+  at call(sync) assert [the-extracted-list-unmodified] (and listOK (= $0 lastList))
+  at call(sync).after set syncOK := (= $result1 vnil)
+  at call(sync).after set lastEvents := $result0
+  at call(sync).after set eventsFresh := (= $result1 vnil)
+  at call(update) assert [watch-event-unmodified] (= $0 lastEvt)
+  at call(update) assert [fail-stop] (= lc 0)
+  at call(update).after set lastEvents := $result0
+  at call(update).after set eventsFresh := (= $result1 vnil)
+  at close(c.readych) assert [only-after-the-first-list-was-applied] (and syncOK (= lc 0) (not failure))
+  at call(distributeEvents) assert [nothing-published-before-ready] {closed(c.readych)}
+  at call(distributeEvents) assert [publishes-exactly-the-events-of-this-mutation] (and eventsFresh (= $1 lastEvents))
+  at call(distributeEvents) assert [fail-stop] (and (= lc 0) (not failure))
+  at call(distributeEvents) set ndist := (+ ndist 1)
+  at call(reset) assert [resumes-from-this-lists-version] (and versionOK (= $0 lastVersion) syncOK)
+  at call(reset) set resetCalled := true
+  at call(ShutdownInitiated) assert [shutdown-initiated-once] (= lc 0)
+  at call(ShutdownInitiated) assert [failure-is-reported] (=> failure (not (= $0 vnil)))
+  at call(ShutdownInitiated) set lc := 1
+  at recv(Done) set njoin := (+ njoin 1)
+  at call(ShutdownCompleted) assert [shutdown-initiated-and-children-joined] (and (= lc 1) (>= njoin 3))
+
+  loop 1 inv [ready-iff-initialized] (= {initialized} {closed(c.readych)})
+  loop 1 inv [nothing-published-before-ready] (=> (not {initialized}) (= ndist 0))
+  loop 1 inv [reset-only-after-ready] (=> resetCalled {initialized})
+  loop 1 inv [running] (and (= lc 0) (= njoin 0))
+  loop 1 inv [list-failures-are-fatal] (not failure)
+@*/
